@@ -94,6 +94,19 @@ func makeCreds(r *vlib.R, authToken string, key []byte, validJWT string, userID 
 		}
 		return s
 	}
+	// the same with further header fields (a key id, key locations): whatever a validator does with them, a
+	// signature made without the instance's key stays worthless
+	signH := func(k any, hdr map[string]any) string {
+		t := jwt.NewWithClaims(jwt.SigningMethodHS256, jwt.StandardClaims{ExpiresAt: time.Now().Add(time.Hour).Unix(), Issuer: "simpleiot", Id: userID})
+		for hk, hv := range hdr {
+			t.Header[hk] = hv
+		}
+		s, err := t.SignedString(k)
+		if err != nil {
+			return "signing-failed"
+		}
+		return s
+	}
 	good := jwt.StandardClaims{ExpiresAt: time.Now().Add(time.Hour).Unix(), Issuer: "simpleiot", Id: userID}
 	expired := jwt.StandardClaims{ExpiresAt: time.Now().Add(-time.Hour).Unix(), Issuer: "simpleiot", Id: userID}
 	otherKey := append([]byte{}, key...)
@@ -142,6 +155,14 @@ func makeCreds(r *vlib.R, authToken string, key []byte, validJWT string, userID 
 		{"jwt-hs512-future-iat", true, "Bearer " + sign(jwt.SigningMethodHS512, key, jwt.StandardClaims{ExpiresAt: time.Now().Add(time.Hour).Unix(), IssuedAt: time.Now().Add(time.Hour).Unix(), Issuer: "simpleiot", Id: userID}), "reject"},
 		{"jwt-none-future-iat", true, "Bearer " + sign(jwt.SigningMethodNone, jwt.UnsafeAllowNoneSignatureType, jwt.StandardClaims{ExpiresAt: time.Now().Add(time.Hour).Unix(), IssuedAt: time.Now().Add(time.Hour).Unix(), Issuer: "simpleiot", Id: userID}), "reject"},
 		{"jwt-expired-future-iat", true, "Bearer " + sign(jwt.SigningMethodHS256, key, jwt.StandardClaims{ExpiresAt: time.Now().Add(-time.Hour).Unix(), IssuedAt: time.Now().Add(time.Hour).Unix(), Issuer: "simpleiot", Id: userID}), "reject"},
+		{"jwt-kid-unknown-empty-key", true, "Bearer " + signH([]byte{}, map[string]any{"kid": "k2"}), "reject"},
+		{"jwt-kid-zero-empty-key", true, "Bearer " + signH([]byte{}, map[string]any{"kid": "0"}), "reject"},
+		{"jwt-kid-blank-empty-key", true, "Bearer " + signH([]byte{}, map[string]any{"kid": ""}), "reject"},
+		{"jwt-kid-number-empty-key", true, "Bearer " + signH([]byte{}, map[string]any{"kid": 7}), "reject"},
+		{"jwt-kid-unknown-zero-key", true, "Bearer " + signH(make([]byte, 20), map[string]any{"kid": "k2"}), "reject"},
+		{"jwt-kid-unknown-other-key", true, "Bearer " + signH(otherKey, map[string]any{"kid": "../../dev/null"}), "reject"},
+		{"jwt-jku-x5u-other-key", true, "Bearer " + signH(otherKey, map[string]any{"jku": "http://127.0.0.1:1/keys", "x5u": "file:///dev/null", "jwk": map[string]any{"kty": "oct", "k": ""}}), "reject"},
+		{"jwt-kid-unknown-instance-key", true, "Bearer " + signH(key, map[string]any{"kid": "k2"}), "open"},
 		{"jwt-tampered-payload", true, "Bearer " + tampered, "reject"},
 		{"jwt-truncated", true, "Bearer " + validJWT[:len(validJWT)-3], "reject"},
 		{"jwt-no-signature", true, "Bearer " + strings.Join(parts[:2], ".") + ".", "reject"},
@@ -207,7 +228,7 @@ func c09Routes() []routeCase {
 func runC09(tier string, _ []string) int {
 	c := vlib.NewCtx("C09", tier, "exploration")
 	vlib.SetPortBlock(9)
-	c.SetRule("part A: an instance configured with an auth token; methods x node routes (/v1/nodes, /:id, /points, /samples, /parents, /not, unknown; path-cleaning variants) x 35 Authorization values (absent, empty, the token and near misses, Bearer variants, the instance's JWT, JWTs minted with the instance key read from the store file: other key, empty key, HS384, HS512, none, expired, payload-tampered, truncated, unsigned, garbage, bad signatures combined with future iat / nbf / missing exp; plus a token used while valid and again after its expiry) x bodies; then all credentials at once from 12 goroutines (each answer must be the one its own credential deserves); each probe targets a fresh id and an existing node; monitor: status 401 for every non-credential, no bus message mentioning the probe id on a '>' tap, tree dump unchanged; credentials must be served; NATS TCP and WebSocket connects without / with a wrong token must fail. part A2: the same forged-token probes (tokens signed with an empty / zero key) against an instance restarted on a store whose first start was killed just before the signing key was written (real crash of a writer process at the sqlite.initJwtKey.beforeWrite site). part B: user placements (created, moved, mirrored, deleted, re-added, under a deleted group, two users with one e-mail, wrong password) vs /v1/auth, asked after every single step of a scenario and at its end: token issued exactly when the model finds a live path to the root; the node listing for the issued token is a subset of the subtrees of the user's live placements; every login is accompanied by 27 probes that pair one half of the real credential with a text no user has (query-language and pattern shapes, case and whitespace variants) and must be refused; a third of the addresses contain an apostrophe. distinct = (credential, route kind, outcome) / (placement scenario, model verdict)")
+	c.SetRule("part A: an instance configured with an auth token; methods x node routes (/v1/nodes, /:id, /points, /samples, /parents, /not, unknown; path-cleaning variants) x 43 Authorization values (absent, empty, the token and near misses, Bearer variants, the instance's JWT, JWTs minted with the instance key read from the store file: other key, empty key, HS384, HS512, none, expired, payload-tampered, truncated, unsigned, garbage, bad signatures combined with future iat / nbf / missing exp; tokens with key-id / key-location header fields signed with an empty, zero or other key; plus a token used while valid and again after its expiry) x bodies; then all credentials at once from 12 goroutines (each answer must be the one its own credential deserves); each probe targets a fresh id and an existing node; monitor: status 401 for every non-credential, no bus message mentioning the probe id on a '>' tap, tree dump unchanged; credentials must be served; NATS TCP and WebSocket connects without / with a wrong token must fail. part A2: the same forged-token probes (tokens signed with an empty / zero key) against an instance restarted on a store whose first start was killed just before the signing key was written (real crash of a writer process at the sqlite.initJwtKey.beforeWrite site). part B: user placements (created, moved, mirrored, deleted, re-added, under a deleted group, two users with one e-mail, wrong password) vs /v1/auth, asked after every single step of a scenario and at its end: token issued exactly when the model finds a live path to the root; the node listing for the issued token is a subset of the subtrees of the user's live placements; every login is accompanied by 27 probes that pair one half of the real credential with a text no user has (query-language and pattern shapes, case and whitespace variants) and must be refused; a third of the addresses contain an apostrophe. distinct = (credential, route kind, outcome) / (placement scenario, model verdict)")
 	c.Assume("'open' header forms (whitespace around the token, lower-case scheme) are only required to leave no trace if answered 401")
 	cl := &http.Client{Timeout: 30 * time.Second}
 
